@@ -13,6 +13,7 @@ import (
 	"github.com/ThreeDotsLabs/watermill"
 	"github.com/ThreeDotsLabs/watermill/message"
 	"github.com/ThreeDotsLabs/watermill/pubsub/gochannel"
+	"github.com/ThreeDotsLabs/watermill/verifhook"
 
 	"verifharness/props/gcw"
 	"verifharness/vlib"
@@ -22,7 +23,29 @@ var forcedPoints = []string{
 	"gochannel.publish.after_closed_check", "gochannel.publish.locked", "gochannel.publish.persisted",
 	"gochannel.subscribe.after_closed_check", "gochannel.subscribe.locked", "gochannel.subscribe.replay", "gochannel.subscribe.before_add",
 	"gochannel.send.locked", "gochannel.send.before_chan", "gochannel.send.wait_settle",
+	// log#k: Publish A is parked inside the k-th call it makes (from its own goroutine) to the Pub/Sub's LoggerAdapter - the one
+	// place inside Publish where user code runs and may take any amount of time, wherever the implementation happens to log
+	"log#1", "log#2", "log#3", "log#4",
 }
+
+// hookLog is a LoggerAdapter that reports every call as hook point "log" (a = case id + calling goroutine, b = the text).
+type hookLog struct{ id string }
+
+func goid() string {
+	var buf [64]byte
+	f := strings.Fields(string(buf[:runtime.Stack(buf[:], false)]))
+	if len(f) > 1 {
+		return f[1]
+	}
+	return "?"
+}
+
+func (l hookLog) at(msg string)                                      { verifhook.At("log", l.id+"#g"+goid(), msg) }
+func (l hookLog) Error(msg string, err error, _ watermill.LogFields) { l.at(msg) }
+func (l hookLog) Info(msg string, _ watermill.LogFields)             { l.at(msg) }
+func (l hookLog) Debug(msg string, _ watermill.LogFields)            { l.at(msg) }
+func (l hookLog) Trace(msg string, _ watermill.LogFields)            { l.at(msg) }
+func (l hookLog) With(watermill.LogFields) watermill.LoggerAdapter   { return l }
 
 // forced grid: point x buffer{0,1,4} x blocking{f,t} x before{0,1,3} x otherSub{f,t}
 func forcedCases() int { return len(forcedPoints) * 3 * 2 * 3 * 2 }
@@ -35,6 +58,7 @@ func init() {
 			return forcedCases() + vlib.TierN(tier, 600, 120000) + longCases(tier) + pairCases(tier)
 		},
 		Rule: "forced part: for each hook point of Publish (after closed check, topic lock taken, persisted), Subscribe (registered in wait group, locks taken, before replay, before registration) and the send loop, " +
+			"plus log#1..log#4 (Publish A parked inside the k-th call it makes to the Pub/Sub's LoggerAdapter from its own goroutine - user code running inside Publish, wherever the implementation logs; configurations in which Publish logs less often run A and B one after the other and are counted as log_call_not_made), " +
 			"operation A is parked there while the opposite operation B (Subscribe resp. Publish) runs to completion or blocks behind A (decided by the quiescence detector), then A is released; grid x buffer {0,1,4} x blocking x {0,1,3} messages published before x {with/without an older subscription}, plus 1..2 messages after. " +
 			"burst part (every third non-forced case): 24 fresh topics per case; on each, 3..8 publishers released by a barrier publish as the very first operations on that topic (first use of the per-topic lock and of the topic's log), optionally racing a first Subscribe, then a late subscription must be replayed every accepted message exactly once. " +
 			"publish-pair part (last 36 / 360 cases): Publish A is parked at one of its three hook points on a topic that holds 0 or 1 messages, a second Publish B of the same topic runs to completion or blocks behind A (quiescence), A is released, then an early (subscribed before) and a late subscription must both have every accepted message exactly once; x buffer {0,1,4} x blocking. " +
@@ -110,7 +134,12 @@ func forced(e *vlib.Env) vlib.Result {
 	spec := fmt.Sprintf("park=%s buf=%d blocking=%v before=%d olderSub=%v uuids=%s", point, buf, blocking, before, older, uuidMode)
 	res := vlib.Result{Class: "forced/" + strings.TrimPrefix(point, "gochannel."), Spec: spec}
 
-	ps := gochannel.NewGoChannel(gochannel.Config{OutputChannelBuffer: buf, Persistent: true, BlockPublishUntilSubscriberAck: blocking}, watermill.NopLogger{})
+	isLog := strings.HasPrefix(point, "log#")
+	var logger watermill.LoggerAdapter = watermill.NopLogger{}
+	if isLog {
+		logger = hookLog{e.ID()}
+	}
+	ps := gochannel.NewGoChannel(gochannel.Config{OutputChannelBuffer: buf, Persistent: true, BlockPublishUntilSubscriberAck: blocking}, logger)
 	topic := e.ID() + "/t"
 	ctl := vlib.NewCtl(e.R.Uint64(), 0, 0)
 	defer ctl.Uninstall()
@@ -167,10 +196,15 @@ func forced(e *vlib.Env) vlib.Result {
 	// let the deliveries of the "before" messages finish so that only the forced pair is in motion
 	vlib.Settle(vlib.WD)
 
-	aIsPublish := strings.Contains(point, ".publish.")
+	aIsPublish := strings.Contains(point, ".publish.") || isLog
 	aIsSend := strings.Contains(point, ".send.")
 	during := e.ID() + "/during"
+	var aTag atomic.Value
 	park := ctl.ParkAt(point, func(a, b string) bool { return true }, 0)
+	if isLog {
+		park.Release() // unused rule
+		park = ctl.ParkAt("log", func(a, b string) bool { t, _ := aTag.Load().(string); return a == t }, int(point[4]-'1'))
+	}
 	aDone, bDone := make(chan struct{}), make(chan struct{})
 	// send points without an older subscription but with persisted messages: the replay of a new subscription runs the send loop
 	sendViaReplay := aIsSend && !older && before > 0
@@ -186,6 +220,7 @@ func forced(e *vlib.Env) vlib.Result {
 	}
 	go func() {
 		defer close(aDone)
+		aTag.Store(e.ID() + "#g" + goid())
 		if aIsPublish {
 			publish(during)
 		} else if sendViaReplay {
@@ -245,7 +280,10 @@ func forced(e *vlib.Env) vlib.Result {
 	res.Count("uuids_"+uuidMode, 1)
 	res.Count("b_blocked_behind_a", b2i(bBlocked))
 	res.Count("b_completed_while_a_parked", b2i(reached && !bBlocked))
-	if !reached && res.Verdict == "" {
+	if !reached && isLog {
+		// Publish made fewer logger calls than that in this configuration: the case ran A and B one after the other
+		res.Count("log_call_not_made", 1)
+	} else if !reached && res.Verdict == "" {
 		res.Verdict = vlib.Unreached
 		res.Reason = "park point not reached: " + spec
 	}
